@@ -29,11 +29,13 @@ func vpat(d int, i int64) byte {
 }
 
 func runC19(c *harness.Ctx) {
-	switch c.T.Draw("part", 5) {
+	switch c.T.Draw("part", 6) {
 	case 0, 1:
 		runRelay(c)
 	case 2:
 		runRelayTransient(c)
+	case 5:
+		runAcceptLoops(c)
 	default:
 		runTermMon(c)
 	}
